@@ -3,8 +3,12 @@ package main
 // In-memory file-system model + os / path/filepath intrinsics + crash / fault variables.
 
 import (
+	"fmt"
+	"os"
 	"sort"
 )
+
+var traceFS = os.Getenv("GOITSYM_TRACE") != ""
 
 type FNode struct {
 	dir  bool
@@ -187,6 +191,9 @@ func (x *Exec) fallible(op string, p Str) (Iface, bool) {
 // mutated: called after each file-system modification; the process dies right after mutation k (C15).
 func (x *Exec) mutated(op string, p Str) {
 	fs := x.fs
+	if traceFS {
+		fmt.Fprintf(os.Stderr, "FS %s %s\n", op, p.show())
+	}
 	fs.mutCount++
 	if x.proc != nil {
 		x.proc.muts++
